@@ -417,6 +417,19 @@ impl<'a> Gen<'a> {
             }
             Ty::Boxed(t) => self.payload(t, depth),
             Ty::Vec(t) | Ty::Set(t) => {
+                // wrong kind of a particular shape: an object keyed by indices ("0", "1", ...) with good elements, the
+                // way some encoders write lists (one kind error; an implementation that starts accepting it must not
+                // depend on the order of the members)
+                if !deep && self.fault() && self.rng.chance(1, 3) {
+                    self.tag("wrong-kind");
+                    self.tag("index-keyed-object-for-sequence");
+                    let n = 2 + self.rng.below(5);
+                    let saved = self.opts.fault_pm;
+                    self.opts.fault_pm = 0;
+                    let m: Vec<(String, Ov)> = (0..n).map(|i| (i.to_string(), self.payload(t, depth + 1))).collect();
+                    self.opts.fault_pm = saved;
+                    return Ov::Map(m);
+                }
                 let n = if deep {
                     0
                 } else if self.opts.max_len > 100 && depth == 0 {
